@@ -47,7 +47,7 @@ CLAIMS["C15"] = ("proof", "Disabled: the four decorator constructors return befo
                  "the three function-decorator __call__ return the identical object with an unchanged heap; the default of `enabled` is the "
                  "expression __debug__ (syntactic obligation); SLOW == __debug__ and ICONTRACT_SLOW non-empty (symbolic evaluation of the module "
                  "statement). Mode independence: every assert in every unit under contract is an obligation proved never to fail, so "
-                 "deleting them (-O) changes nothing. invariant.__call__ is not yet under contract.", "8 C15")
+                 "deleting them (-O) changes nothing. A subprocess replay runs the decorators under -O.", "8 C15")
 CLAIMS["C19"] = ("proof", "Guard table: decorate_with_checker raises TypeError for _ARGS/_KWARGS parameters before any wrapper exists; both checker "
                  "closures raise TypeError for _ARGS/_KWARGS keywords before any event and for result/OLD with postconditions before any condition; "
                  "invariant.__init__ raises ValueError for coroutine-function conditions and foreign mandatory arguments; the error validation in all "
@@ -59,11 +59,14 @@ CLAIMS["C04"] = ("proof", "_decorate_namespace_function is proved against the ef
                  "an existing checker is kept, a new one wraps the function in the same static/class-method kind); the four _collapse_* helpers, "
                  "_dbc_decorate_namespace (every function/property member dispatched exactly once, in order) and DBCMeta.__new__ (order: merge, "
                  "type.__new__, invariant wrapping iff the class has invariants, registration) are proved; how the merged lists are *evaluated* "
-                 "(OR of groups, AND of postconditions) is the contract of the walks. _decorate_namespace_property is an assumed contract.", "8 C04")
+                 "(OR of groups, AND of postconditions) is the contract of the walks. _decorate_namespace_property is proved too (per accessor: same clauses, "
+                 "plus a frame invariant over its three iterations); members a class body merely binds again from a base are left alone (F21).", "8 C04")
 CLAIMS["C17"] = ("proof", "Frame obligations: in every unit that defines a class or decorates a function, no pre-existing list object is mutated "
                  "except the lists owned by the checker/class being decorated (merged lists are fresh objects; invariant.__call__ appends only to "
                  "lists in the class's own namespace; _collapse_invariants gives a subclass its own list whenever a base has one), no namespace "
-                 "other than the new class's is written, and the only attributes rebound are the three lists of the member's own checker.", "8 C17")
+                 "other than the new class's is written, the only attributes rebound are the three lists of the member's own checker, and that checker "
+                 "is never the one through which a base class provides the member (contracts_of_every_base_are_left_as_they_were, functions and "
+                 "properties: F21).", "8 C17")
 CLAIMS["C18"] = ("proof", "The lists introspection shows are the effective contracts (post of _decorate_namespace_function / _collapse_invariants / "
                  "add_*_to_checker); find_checker returns the innermost object carrying the lists; both checker closures read the three lists from "
                  "that very object at call time (closure fact wrapper is the checker itself + _unpack_pre_snap_posts) and judge a call exactly as the "
@@ -71,16 +74,19 @@ CLAIMS["C18"] = ("proof", "The lists introspection shows are the effective contr
 CLAIMS["C14"] = ("proof", "Identity clauses of all six wrappers (the body receives the identical args/kwargs objects, the caller the identical result or "
                  "exception object), decorate_with_checker (update_wrapper contract: name/qualname/doc/module/annotations/__dict__/__wrapped__, async "
                  "closure iff coroutine function), find_checker + require/ensure/snapshot.__call__ (single checker, argument returned when a checker "
-                 "exists), invariant.__call__ (returns the very class). Not covered: add_invariant_checks' constructor choice and the object.__new__ "
-                 "argument rule (finding F13 is recorded in DESIGN.md, no check claims it yet).", "8 C14")
+                 "exists), invariant.__call__ (returns the very class). Recorded finding F13 (object.__new__ argument rule below an invariant "
+                 "class without __init__) is re-played by the check on every run.", "8 C14")
 
 CLAIMS["C03"] = ("proof", "Proved: the four invariant wrappers (exact traces: invariants selected by check-on before and after the body, body not "
                  "entered after a failing before-invariant, constructor: only the outermost one checks, afterwards, all invariants; nothing while the "
-                 "object is under construction; identity of result/exception; state restored), _assert_invariant, invariant.__init__/__call__ "
-                 "(three lists per check_on, own lists only), _collapse_invariants, DBCMeta.__new__ (invariant wrapping requested iff the class has "
-                 "invariants). NOT proved, BOUNDED: which members add_invariant_checks wraps -- its dir()/getattr loop with three dependent loops is "
-                 "outside the executor's current reach; a bounded enumeration of class programs against a reference stands in (bound stated in "
-                 "the evidence, never counted in obligations/discharged).", "8 C03")
+                 "object is under construction; identity of result/exception; state restored; marker held while invariants and the body run), "
+                 "_assert_invariant, invariant.__init__/__call__ (three lists per check_on, own lists only), _collapse_invariants, DBCMeta.__new__, and "
+                 "add_invariant_checks against postconditions written from the statement (public and dunder Python methods and property accessors "
+                 "wrapped; non-public, class/static methods, __repr__, __getattribute__ never touched; the constructor wrapped as a constructor, "
+                 "__new__ when there is no Python constructor) -- three loops with ghost state (selected names as sequence, set and position index). "
+                 "Assumed: dir() lists distinct resolvable names; the outer wrapper factories _decorate_with_invariants/_decorate_new_with_invariants "
+                 "(contract: the function itself if already a checker, else a fresh checker wrapping it). BOUNDED: the composition on real classes "
+                 "(52 class programs against a reference written from the statement; never counted in obligations/discharged).", "8 C03")
 
 CLAIMS["C06"] = ("proof", "Structural induction realised as modular verification: every visit_X of _recompute.Visitor under contract (Constant, "
                  "Expr, Name, NamedExpr, UnaryOp, BinOp, BoolOp, Compare, IfExp, Attribute, Subscript, Slice, List, Tuple, Set, JoinedStr) is proved "
@@ -102,8 +108,8 @@ CLAIMS["C20"] = ("proof", "repr_values: the two loops that produce lines iterate
                  "trace of repr calls in ascending key order), every value is rendered by a call of the contract's own a_repr.repr (obligation at "
                  "each call; no repr()/str()/f-string on values: syntactic obligation), the shown set is exactly collected values + representable "
                  "unshadowed arguments without _ARGS/_KWARGS unless the condition names them; generate_message passes the contract's _a_repr and "
-                 "this call's values; _representable is the five-way filter. Size limits are reprlib's (trusted). The all()-example block is "
-                 "outside the proof (assumption listed).", "8 C20")
+                 "this call's values; _representable is the five-way filter. Size limits are reprlib's (trusted). The example block of a failing "
+                 "all(<generator>) is inside the proof (one a_repr.repr per input, in order).", "8 C20")
 
 NOT_YET = {
 }
